@@ -592,3 +592,328 @@ theorem parseHostPattern_doc (ext : Ext) {ls : List Bytes} (hL : Labels ls) (dot
 
 end Accept
 end Cors
+
+namespace Cors
+open Gen Spec Pat
+namespace Accept
+
+/-! ### dotted-quad IPv4 hosts -/
+
+theorem digit_isLDH {c : Nat} (h : Spec.isDigit c = true) : Spec.isLDH c = true := by
+  unfold Spec.isLDH; rw [h]; simp
+
+/-- What a documented octet gives. -/
+theorem docOctet_facts {f : Bytes} (h : docOctet f = true) :
+    f ≠ [] ∧ f.all Spec.isDigit = true ∧ f.all Spec.isLDH = true ∧ (46 : Nat) ∉ f ∧ octetOK f = true := by
+  simp only [docOctet, Bool.and_eq_true, Bool.not_eq_true', decide_eq_true_eq] at h
+  obtain ⟨⟨⟨⟨h1, h2⟩, h3⟩, h4⟩, h5⟩ := h
+  have hne : f ≠ [] := by intro h0; subst h0; simp at h1
+  have hldh : f.all Spec.isLDH = true := by
+    simp only [List.all_eq_true] at h2 ⊢
+    exact fun c hc => digit_isLDH (h2 c hc)
+  have h46 : (46 : Nat) ∉ f := by
+    intro hm
+    simp only [List.all_eq_true] at h2
+    have := h2 46 hm
+    revert this; decide
+  refine ⟨hne, h2, hldh, h46, ?_⟩
+  unfold octetOK
+  have hB : f.all Bytes.isDigitB = true := by
+    simp only [List.all_eq_true] at h2 ⊢
+    intro c hc
+    have := h2 c hc
+    simpa [Spec.isDigit, Bytes.isDigitB] using this
+  have hv : f.foldl (fun acc c => 10 * acc + (c - 48)) 0 = portValue f := rfl
+  simp only [Bool.and_eq_true, Bool.not_eq_true', decide_eq_true_eq]
+  exact ⟨⟨⟨⟨h1, hB⟩, h3⟩, h4⟩, by rw [hv]; exact h5⟩
+
+/-- The host loop over labels whose last one starts with a digit: an IPv4 candidate. -/
+theorem hostLoop_v4 (ls : List Bytes) (hls : ∀ l ∈ ls, l ≠ [] ∧ l.all Spec.isLDH = true) (hne : ls ≠ [])
+    (hlast : ∃ l, ls.getLast? = some l ∧ l.head?.any Spec.isDigit = true) (r : Bytes) (hr : Stops r)
+    (ps ip fst : Bool) (hip : ps = true ∨ fst = true) :
+    Lex.hostLoop (Bytes.join 46 ls ++ r) ps ip fst = some (Bytes.join 46 ls, r, true) := by
+  induction ls generalizing ps ip fst with
+  | nil => exact absurd rfl hne
+  | cons l rest ih =>
+    obtain ⟨hlne, hlall⟩ := hls l List.mem_cons_self
+    cases hl : l with
+    | nil => exact absurd hl hlne
+    | cons c t =>
+      cases rest with
+      | nil =>
+        obtain ⟨l', hl', hdig⟩ := hlast
+        simp only [List.getLast?_singleton, Option.some.injEq] at hl'
+        subst hl'
+        rw [hl] at hdig
+        simp only [List.head?_cons, Option.any_some] at hdig
+        simp only [Bytes.join]
+        rw [← hl, hostLoop_label l hlall _ ps ip fst c t hl]
+        simp only [hdig, if_true]
+        have hg : (if (ps || fst) = true then true else ip) = true := by
+          rcases hip with h | h <;> subst h <;> simp
+        rw [hg, hostLoop_stop hr]
+        simp
+      | cons l2 rest2 =>
+        have hjoin : Bytes.join 46 (l :: l2 :: rest2) = l ++ 46 :: Bytes.join 46 (l2 :: rest2) := by
+          simp [Bytes.join]
+        rw [← hl, hjoin]
+        have hassoc : l ++ 46 :: Bytes.join 46 (l2 :: rest2) ++ r = l ++ (46 :: (Bytes.join 46 (l2 :: rest2) ++ r)) := by simp
+        rw [hassoc, hostLoop_label l hlall _ ps ip fst c t hl]
+        simp only [Lex.hostLoop]
+        have : ((46 : Nat) == Facts.origins_labelSep) = true := by decide
+        simp only [this, if_true, Bool.false_eq_true, if_false]
+        have hlast' : ∃ l, (l2 :: rest2).getLast? = some l ∧ l.head?.any Spec.isDigit = true := by
+          obtain ⟨l', hl', hd⟩ := hlast
+          exact ⟨l', by simpa [List.getLast?_cons_cons] using hl', hd⟩
+        rw [ih (fun x hx => hls x (List.mem_cons_of_mem _ hx)) (by simp) hlast' true _ false (Or.inl rfl)]
+        simp
+
+theorem firstIPMark_digits (ds rest : Bytes) (hd : ds.all Spec.isDigit = true) : firstIPMark (ds ++ 46 :: rest) = some 46 := by
+  induction ds with
+  | nil => simp [firstIPMark]
+  | cons c t ih =>
+    simp only [List.all_cons, Bool.and_eq_true] at hd
+    have hc : (c == 46 || c == 58 || c == 37) = false := by
+      have := hd.1
+      simp only [Spec.isDigit, Bool.and_eq_true, decide_eq_true_eq] at this
+      simp only [Bool.or_eq_false_iff, beq_eq_false_iff_ne, ne_eq]
+      omega
+    simp only [List.cons_append, firstIPMark, hc, Bool.false_eq_true, if_false]
+    exact ih hd.2
+
+end Accept
+end Cors
+
+namespace Cors
+open Gen Spec Pat
+namespace Accept
+
+theorem parseHostPattern_v4 (ext : Ext) (a b c d : Bytes) (ha : docOctet a = true) (hb : docOctet b = true)
+    (hc : docOctet c = true) (hd : docOctet d = true) (r : Bytes) (hr : Stops r) :
+    parseHostPattern ext (Bytes.join 46 [a, b, c, d] ++ r) =
+      .ok (Bytes.join 46 [a, b, c, d], if a == [49, 50, 55] then Kind.loopbackIP else Kind.nonLoopbackIP, r) := by
+  obtain ⟨ane, adig, aldh, a46, aok⟩ := docOctet_facts ha
+  obtain ⟨bne, bdig, bldh, b46, bok⟩ := docOctet_facts hb
+  obtain ⟨cne, cdig, cldh, c46, cok⟩ := docOctet_facts hc
+  obtain ⟨dne, ddig, dldh, d46, dok⟩ := docOctet_facts hd
+  -- the first byte is a digit
+  obtain ⟨a0, at', haeq⟩ : ∃ a0 at', a = a0 :: at' := by
+    cases a with
+    | nil => exact absurd rfl ane
+    | cons x xs => exact ⟨x, xs, rfl⟩
+  have ha0 : Spec.isDigit a0 = true := by
+    rw [haeq] at adig; simp only [List.all_cons, Bool.and_eq_true] at adig; exact adig.1
+  have hjoin : Bytes.join 46 [a, b, c, d] = a ++ 46 :: (b ++ 46 :: (c ++ 46 :: d)) := by simp [Bytes.join]
+  have hhead : ∃ tl, Bytes.join 46 [a, b, c, d] ++ r = a0 :: tl := by
+    rw [hjoin, haeq]; exact ⟨_, rfl⟩
+  obtain ⟨tl, htl⟩ := hhead
+  have hls : ∀ l ∈ [a, b, c, d], l ≠ [] ∧ l.all Spec.isLDH = true := by
+    intro l hl
+    simp only [List.mem_cons, List.mem_nil_iff, or_false] at hl
+    rcases hl with rfl | rfl | rfl | rfl
+    · exact ⟨ane, aldh⟩
+    · exact ⟨bne, bldh⟩
+    · exact ⟨cne, cldh⟩
+    · exact ⟨dne, dldh⟩
+  have hlast : ∃ l, [a, b, c, d].getLast? = some l ∧ l.head?.any Spec.isDigit = true := by
+    refine ⟨d, rfl, ?_⟩
+    cases d with
+    | nil => exact absurd rfl dne
+    | cons x xs => simp only [List.all_cons, Bool.and_eq_true] at ddig; simp [ddig.1]
+  have hloop := hostLoop_v4 [a, b, c, d] hls (by simp) hlast r hr false false true (Or.inr rfl)
+  have hfp : Lex.fastParseHost (Bytes.join 46 [a, b, c, d] ++ r) =
+      some ({ value := Bytes.join 46 [a, b, c, d], assumeIP := true }, r) := by
+    unfold Lex.fastParseHost
+    have h91 : a0 ≠ 91 := by intro h; subst h; revert ha0; decide
+    have h46 : (a0 == Facts.origins_labelSep) = false := by
+      have : a0 ≠ 46 := by intro h; subst h; revert ha0; decide
+      simpa [Facts.origins_labelSep] using this
+    rw [htl]
+    have hbk : ((a0 :: tl).length ≥ Facts.origins_fastParseHost_minIPv6HostLen && (a0 :: tl).head? == some 91) = false := by
+      simp [h91]
+    rw [if_neg (by rw [hbk]; simp)]
+    simp only []
+    rw [if_neg (by rw [h46]; simp), ← htl, hloop]
+  have hpk : peekKind (Bytes.join 46 [a, b, c, d] ++ r) = Kind.domain := by
+    rw [htl]
+    have : (a0 == 42) = false := by
+      have : a0 ≠ 42 := by intro h; subst h; revert ha0; decide
+      simpa using this
+    simp [peekKind, Facts.origins_peekKind_wildcardSeq, Bytes.hasPrefix, this]
+  have hmark : firstIPMark (Bytes.join 46 [a, b, c, d]) = some 46 := by
+    rw [hjoin]; exact firstIPMark_digits a _ adig
+  have hsplit : Bytes.splitOn 46 (Bytes.join 46 [a, b, c, d]) = [a, b, c, d] :=
+    splitOn_join_gen 46 [a, b, c, d] (by simp) (by
+      intro l hl
+      simp only [List.mem_cons, List.mem_nil_iff, or_false] at hl
+      rcases hl with rfl | rfl | rfl | rfl <;> assumption)
+  have hv4 : parseIPv4 (Bytes.join 46 [a, b, c, d]) = some (a == [49, 50, 55]) := by
+    unfold parseIPv4
+    rw [hsplit]
+    simp [aok, bok, cok, dok]
+  have hverdict : ipVerdict ext (Bytes.join 46 [a, b, c, d]) = .ok (a == [49, 50, 55]) := by
+    unfold ipVerdict
+    rw [hmark]
+    simp only []
+    rw [hv4]
+  unfold parseHostPattern
+  simp only [hpk]
+  have hho : hostOnly (Bytes.join 46 [a, b, c, d] ++ r) Kind.domain = Bytes.join 46 [a, b, c, d] ++ r := by simp [hostOnly]
+  rw [hho, hfp]
+  simp only []
+  rw [if_neg (by simp), if_neg (by simp), if_pos trivial, hverdict]
+
+end Accept
+end Cors
+
+namespace Cors
+open Gen Spec Pat
+namespace Accept
+
+theorem cutAt_found (c : Nat) (e rest : Bytes) (h : c ∉ e) : Bytes.cutAt c (e ++ c :: rest) = some (e, rest) :=
+  ACRH.cutAt_append h
+
+/-- `parseHostPattern` on a bracketed literal that the IPv6 oracle accepts as canonical. -/
+theorem parseHostPattern_v6 (ext : Ext) (lit : Bytes) (info : IP6Info) (hlen : 2 ≤ lit.length) (hnb : (93 : Nat) ∉ lit)
+    (hmark : firstIPMark lit = some 58) (horacle : ext.ip6 lit = some info)
+    (hz : info.zone = false) (h46 : info.is4in6 = false) (hcanon : info.canon = lit) (r : Bytes) :
+    parseHostPattern ext (91 :: lit ++ 93 :: r) =
+      .ok (lit, if info.loopback then Kind.loopbackIP else Kind.nonLoopbackIP, r) := by
+  have hpk : peekKind (91 :: lit ++ 93 :: r) = Kind.domain := by
+    simp [peekKind, Facts.origins_peekKind_wildcardSeq, Bytes.hasPrefix]
+  have hfp : Lex.fastParseHost (91 :: lit ++ 93 :: r) = some ({ value := lit, assumeIP := true }, r) := by
+    unfold Lex.fastParseHost
+    have hb : ((91 :: lit ++ 93 :: r).length ≥ Facts.origins_fastParseHost_minIPv6HostLen && (91 :: lit ++ 93 :: r).head? == some 91) = true := by
+      simp only [Facts.origins_fastParseHost_minIPv6HostLen, List.cons_append, List.length_cons, List.length_append, List.head?_cons,
+        beq_self_eq_true, Bool.and_true, decide_eq_true_eq]
+      omega
+    rw [if_pos hb]
+    have hcut : Bytes.cutAt 93 (91 :: lit ++ 93 :: r) = some (91 :: lit, r) := by
+      have : (93 : Nat) ∉ (91 :: lit) := by
+        simp only [List.mem_cons, not_or]; exact ⟨by decide, hnb⟩
+      exact cutAt_found 93 (91 :: lit) r this
+    rw [hcut]
+    simp
+  have hverdict : ipVerdict ext lit = .ok info.loopback := by
+    unfold ipVerdict
+    rw [hmark]
+    simp only []
+    rw [horacle]
+    simp only [hz, h46, hcanon, Bool.false_eq_true, if_false, bne_self_eq_false]
+  unfold parseHostPattern
+  simp only [hpk]
+  have hho : hostOnly (91 :: lit ++ 93 :: r) Kind.domain = 91 :: lit ++ 93 :: r := by simp [hostOnly]
+  rw [hho, hfp]
+  simp only []
+  rw [if_neg (by simp), if_neg (by simp), if_pos trivial, hverdict]
+
+end Accept
+end Cors
+
+namespace Cors
+open Gen Spec Pat
+namespace Accept
+
+/-! ### hosts that are only lexically domains: the IDNA verdict as a hypothesis -/
+
+/-- The lexical shape of a domain: non-empty letter-digit-hyphen labels, the last one starting
+with a letter.  (Whether the labels are valid — lengths, hyphen positions, Punycode — is then the
+verdict of the IDNA check.) -/
+structure LexLabels (ls : List Bytes) : Prop where
+  ne : ls ≠ []
+  all : ∀ l ∈ ls, l ≠ [] ∧ l.all Spec.isLDH = true
+  last : ∃ l, ls.getLast? = some l ∧ l.head?.any Spec.isLower = true
+
+theorem lex_of_labels {ls : List Bytes} (hL : Labels ls) : LexLabels ls :=
+  ⟨hL.ne, fun l hl => by obtain ⟨a, b', _⟩ := docLabel_facts (hL.all l hl); exact ⟨a, b'⟩, hL.last⟩
+
+theorem hostOf_head_lex {ls : List Bytes} (hL : LexLabels ls) (dot : Bool) (r : Bytes) :
+    ∃ c t, hostOf ls dot ++ r = c :: t ∧ Spec.isLDH c = true := by
+  cases hls : ls with
+  | nil => exact absurd hls hL.ne
+  | cons l rest =>
+    obtain ⟨hne, hall⟩ := hL.all l (by rw [hls]; exact List.mem_cons_self)
+    cases hl : l with
+    | nil => exact absurd hl hne
+    | cons c t =>
+      refine ⟨c, t ++ ((match rest with | [] => [] | y :: ys => 46 :: Bytes.join 46 (y :: ys)) ++ (if dot then [46] else []) ++ r), ?_, ?_⟩
+      · unfold hostOf
+        cases rest <;> simp [Bytes.join]
+      · rw [hl] at hall; simp only [List.all_cons, Bool.and_eq_true] at hall; exact hall.1
+
+theorem fastParseHost_lex {ls : List Bytes} (hL : LexLabels ls) (dot : Bool) (r : Bytes) (hr : Stops r) :
+    Lex.fastParseHost (hostOf ls dot ++ r) = some ({ value := hostOf ls dot, assumeIP := false }, r) := by
+  obtain ⟨c, t, hct, hldh⟩ := hostOf_head_lex hL dot r
+  obtain ⟨hne46, _, _⟩ := ldh_class c (ldh_lt hldh) hldh
+  have h91 : c ≠ 91 := by intro h; subst h; revert hldh; decide
+  unfold Lex.fastParseHost
+  rw [hct]
+  have hb : ((c :: t).length ≥ Facts.origins_fastParseHost_minIPv6HostLen && (c :: t).head? == some 91) = false := by
+    simp [h91]
+  rw [if_neg (by rw [hb]; simp)]
+  simp only []
+  have h46 : (c == Facts.origins_labelSep) = false := by simpa using hne46
+  rw [if_neg (by rw [h46]; simp)]
+  rw [← hct]
+  have := hostLoop_domain ls hL.all hL.ne hL.last dot r hr false false true (Or.inl rfl)
+  unfold hostOf
+  rw [this]
+
+/-- `parseHostPattern` on a lexical domain that passes the IDNA check. -/
+theorem parseHostPattern_lex (ext : Ext) {ls : List Bytes} (hL : LexLabels ls) (dot wild : Bool)
+    (hid : idnaOK ext (hostOf ls dot) = true)
+    (hw : wild = true → (hostOf ls dot).length ≤ 251) (r : Bytes) (hr : Stops r) :
+    parseHostPattern ext ((if wild then [42, 46] else []) ++ hostOf ls dot ++ r) =
+      .ok ((if wild then [42, 46] else []) ++ hostOf ls dot, if wild then Kind.subdomains else Kind.domain, r) := by
+  obtain ⟨c, t, hct, hldh⟩ := hostOf_head_lex hL dot r
+  have hfp := fastParseHost_lex hL dot r hr
+  unfold parseHostPattern
+  cases wild with
+  | true =>
+    have hpk : peekKind ([42, 46] ++ hostOf ls dot ++ r) = Kind.subdomains := by
+      simp [peekKind, Facts.origins_peekKind_wildcardSeq, Bytes.hasPrefix]
+    simp only [if_true, hpk]
+    have hho : hostOnly ([42, 46] ++ hostOf ls dot ++ r) Kind.subdomains = hostOf ls dot ++ r := by
+      simp [hostOnly, Facts.origins_subdomainWildcard]
+    rw [hho, hfp]
+    simp only []
+    have hlen := hw rfl
+    have h1 : (Kind.subdomains == Kind.subdomains && decide ((hostOf ls dot).length > Facts.origins_maxHostLen - 2)) = false := by
+      have hn : ¬ ((hostOf ls dot).length > Facts.origins_maxHostLen - 2) := by
+        have : Facts.origins_maxHostLen = 253 := rfl
+        omega
+      rw [decide_eq_false hn, Bool.and_false]
+    rw [if_neg (by rw [h1]; simp)]
+    rw [if_neg (by simp)]
+    rw [if_neg (by simp)]
+    rw [hid]
+    simp only [Bool.not_true, Bool.false_eq_true, if_false]
+    have htake : ([42, 46] ++ hostOf ls dot ++ r).take ((hostOf ls dot).length + (if (Kind.subdomains == Kind.subdomains) = true then Facts.origins_subdomainWildcard.length + 1 else 0)) = [42, 46] ++ hostOf ls dot := by
+      have : ([42, 46] ++ hostOf ls dot).length = (hostOf ls dot).length + (if (Kind.subdomains == Kind.subdomains) = true then Facts.origins_subdomainWildcard.length + 1 else 0) := by
+        simp [Facts.origins_subdomainWildcard]
+      rw [← this]
+      exact List.take_left' rfl
+    rw [htake]
+  | false =>
+    have hpk : peekKind ([] ++ hostOf ls dot ++ r) = Kind.domain := by
+      rw [List.nil_append, hct]
+      have : (c == 42) = false := by simpa using ldh_not_star hldh
+      simp [peekKind, Facts.origins_peekKind_wildcardSeq, Bytes.hasPrefix, this]
+    simp only [Bool.false_eq_true, if_false, hpk]
+    have hho : hostOnly ([] ++ hostOf ls dot ++ r) Kind.domain = hostOf ls dot ++ r := by
+      simp [hostOnly]
+    rw [hho, hfp]
+    simp only []
+    rw [if_neg (by simp)]
+    rw [if_neg (by simp)]
+    rw [if_neg (by simp)]
+    rw [hid]
+    simp only [Bool.not_true, Bool.false_eq_true, if_false]
+    have htake : ([] ++ hostOf ls dot ++ r).take ((hostOf ls dot).length + (if (Kind.domain == Kind.subdomains) = true then Facts.origins_subdomainWildcard.length + 1 else 0)) = [] ++ hostOf ls dot := by
+      have : (Kind.domain == Kind.subdomains) = false := rfl
+      simp only [this, Bool.false_eq_true, if_false, Nat.add_zero, List.nil_append]
+      exact List.take_left' rfl
+    rw [htake]
+
+end Accept
+end Cors
